@@ -556,6 +556,8 @@ func keysFor(w *world, extra []string, max int) []string {
 // runCase exercises root c of world w as case id.
 func runCase(r *vp.Run, id string, w *world, c cid.Cid, extraKeys []string, full bool) {
 	r.Eval(id)
+	// the thorough tier has the time to put every hand-built case through the full treatment
+	full = full || (vp.Thorough() && !strings.HasPrefix(id, "rand:"))
 	x := &exerciser{r: r, id: id, w: w, full: full}
 	x.keys = keysFor(w, extraKeys, vp.Pick(40, 80))
 	x.cur.Store("start")
